@@ -107,4 +107,17 @@ def ModeOK (t : Table) (m : Mode) : Prop :=
 
 def nthMode (ms : List Mode) (i : Nat) : Mode := (nth ms i).getD ⟨"", [], .emp⟩
 
+/-- a suite = one constructed driver (generated table) + the modes its device can be in (Spec) -/
+structure Suite where
+  name : String
+  table : Table
+  modes : List Mode
+
+/-- obligation 0: detection, 1: classified by the whole share group, 2: by no other level -/
+def Suite.ob (s : Suite) (i k : Nat) : RE :=
+  match k with
+  | 0 => detOb s.table (nthMode s.modes i)
+  | 1 => ownOb s.table (nthMode s.modes i)
+  | _ => forOb s.table (nthMode s.modes i)
+
 end Scrapli.PromptClass
